@@ -101,8 +101,14 @@ pub fn mutate(text: &str, c: &mut Chooser, n: usize) -> String {
                 toks.remove(i);
             }
             1 => {
+                // repeat a token 1-3 more times; words are kept apart by a blank so that the
+                // repetition is a sequence of tokens for the grammar too (`not not not q`)
                 let t = toks[i].clone();
-                toks.insert(i, t);
+                let wordy = t.chars().all(|ch| ch.is_ascii_alphanumeric() || ch == '_' || ch == '#' || ch == '$');
+                let glue = wordy && c.flag(3, 4);
+                for _ in 0..1 + c.next(3) {
+                    toks.insert(i, if glue { format!("{t} ") } else { t.clone() });
+                }
             }
             2 => {
                 if i + 1 < toks.len() {
@@ -190,6 +196,11 @@ pub fn directed_texts() -> Vec<(&'static str, String)> {
         ("lp", "p(V99999999999999999999999) :- q(V99999999999999999999999).".into()),
         ("lp", "p(I9, J9, K9, Z9223372036854775807, N18446744073709551615, 1..2).".into()),
     ];
+    // one text per input language that uses every construct of its grammar, as a base for mutation
+    v.push(("lp", "{p(X)} :- q(X), not r(X, a), not not s, X != 1, Y = 1..3, t(-X, X * 2 / 3 \\ 4 + Y - 1).\n:- p(a), not not q(#inf), #sup < X.\n#false :- not not s.\ns :- X = Y, X <= Y, X >= Y, X > Y, X < Y. % end\n".into()));
+    v.push(("spec", "spec(forward)[name_1]: forall X Y$i Z$s (p(X) and not not q(Y$i) or #true -> exists N$ (N$ = a <-> 1 <= Y$i < 5 != -Y$ * 2) <- #false).\nassumption(universal): p(1 + 2 - 3, #inf, #sup, b) <-> not s.\nlemma(backward): exists X$g (X$g > 0).\n".into()));
+    v.push(("ug", "input: p/1.\ninput: n -> integer.\ninput: c -> general. input: d -> symbol. input: e.\noutput: q/2.\nassumption: forall X (p(X) -> X >= n and not not X != c).\n".into()));
+    v.push(("po", "definition(universal)[d1]: forall X (d(X) <-> p(X) and not q(X, X)).\nlemma(forward)[l1]: forall X (d(X) -> p(X)).\ninductive-lemma(backward): forall N$i (N$i >= 0 -> r(N$i)).\nlemma: exists X (not not d(X)).\n".into()));
     let args: String = (0..120).map(|i| format!("X{i}")).collect::<Vec<_>>().join(",");
     v.push(("lp", format!("p({args}) :- q({args}).")));
     v.push(("ug", "input: p/300.".into()));
